@@ -167,6 +167,16 @@ pub fn corpus(tier: Tier) -> Vec<String> {
         out.push(format!("-type {}", vec!["f"; k].join(",")));
         out.push(format!("{}", "-depth ".repeat(k)));
     }
+    // 5b. a multi-byte character at every byte offset 0..=128 of a long word, in every position
+    // a word can take (unknown word, bad argument of each argument language, good string argument)
+    for off in 0..=128usize {
+        for ch in ["é", "€", "😀"] {
+            let word = format!("{}{ch}{}", "x".repeat(off), "y".repeat(12));
+            for ctx in ["{}", "-true {}", "-uid {}", "-size {}", "-type {}", "-perm {}", "-amin {}", "-name {}", "-printf '%{}'", "-printf '{}%'", "-fprintf {} '%z'", "-threads {}", "( -name x {} )", "-xattr-match {} {}"] {
+                out.push(ctx.replace("{}", &word));
+            }
+        }
+    }
     // 6. keyword alone, with missing argument, followed by each other keyword
     for a in VOCAB {
         out.push(a.word.to_string());
